@@ -74,6 +74,20 @@ func c08GenDec(s Src) Val {
 	var txt string
 	if s.Intn(3) == 0 {
 		txt = pickOne(s, c08DecBoundary)
+	} else if s.Intn(6) == 0 {
+		// around a machine-word boundary: m·2^k + d (k = 31, 32, 63, 64, 65, 128) or 10^k + d, with a
+		// fraction - where a conversion through a fixed-width integer wraps or truncates
+		n := new(big.Int)
+		if s.Bool() {
+			n.Lsh(big.NewInt(int64(s.Range(1, 3))), uint(pickOne(s, []int{31, 32, 63, 64, 64, 65, 128})))
+		} else {
+			n.Exp(big.NewInt(10), big.NewInt(int64(pickOne(s, []int{9, 10, 18, 19, 20, 38, 64}))), nil)
+		}
+		n.Add(n, big.NewInt(int64(s.Range(-6, 6))))
+		txt = n.String() + pickOne(s, []string{".0", ".5", ".25", ".999", ".000000001"})
+		if s.Bool() {
+			txt = "-" + txt
+		}
 	} else {
 		ip := s.Str(digits, 1, pickOne(s, []int{1, 3, 10, 20}))
 		ip = strings.TrimLeft(ip, "0")
